@@ -18,12 +18,26 @@ CHECKS = {
         technique="TLA+ spec (Registers.tla) + TLC exhaustive/simulate + trace validation of recorded Python and Rust executions",
         engine="regs",
     ),
+    "C13": dict(
+        category="model_checking",
+        text="Timers.tla (two periodic timers with absolute targets, reset and snapshot-restore actions, declarative boundary "
+             "ghosts) is model-checked exhaustively for all period pairs 0..4 (thorough 0..6) and gap sequences to depth 8-10; "
+             "every behaviour of a small recorded model and `-simulate` behaviours (depth 40) are replayed on the real Python "
+             "TimerScheduler and the real Rust TimerContext, and those recordings plus seeded random runs with large periods "
+             "and cycle origins up to 2^62 are validated step by step by TLC against TraceTimers.tla (FiredIffBoundary, "
+             "NextInFuture, NeverWhenOff, FireSetsIsr); Python and Rust sequences are also compared directly.",
+        design_ref="DESIGN.md section 4 (C13)",
+        note="Trusted: TLC, vh harness (timer.rs), drivers in checks/c13.py. Scheduler-level objects; machine-level ticking (WAIT/HALT) is exercised by the C12 machine traces.",
+        technique="TLA+ spec (Timers.tla) + TLC exhaustive/simulate + trace validation of recorded Python and Rust executions",
+        engine="machine",
+    ),
 }
 
 NOT_YET = {
 }
 
 ENGINES = [
+    dict(name="machine", path="spec/machine", serves_properties=["C13"], kind_free_text="TLA+ timers / interrupts / machine specs + trace specs"),
     dict(name="regs", path="spec/regs", serves_properties=["C08"], kind_free_text="TLA+ register-file state machine + trace spec"),
 ]
 
